@@ -5,17 +5,18 @@ from ..run.core import V
 
 ID = "C01"
 LEVEL = "exploration"
-NEEDS = {"lib": ["dev", "release"]}
+NEEDS = {"lib": ["dev", "release"], "cli": ["dev", "release"]}
 RULE = ("mnemonic.parse events judged by an independent BIP-39 decoder; complete sweeps: every word x every position "
         "for the five legal lengths, all 2048 final words for every word count 1..40, counts 0..40; sampled: entropy "
         "values, unknown words, whitespace layouts; word-lookup probe: 32 M (quick) / 640 M (thorough) generated tokens (random 3-8 letters, "
-        "1-2 edits of list words) through Wordlist::search and through whole phrases, every accepted token checked against the pinned list. distinct = distinct (phrase text, profile); non-trivial = the "
+        "1-2 edits of list words) through Wordlist::search and through whole phrases, every accepted token checked against the pinned list; whole phrases wrapped in quotes / brackets / punctuation; CLI events: a sample of all classes through `address` with the phrase by --mnemonic or MNEMONIC. distinct = distinct (phrase text, profile); non-trivial = the "
         "oracle classified the phrase and the accept/reject decision and printed form were compared")
 ILLEGAL = [n for n in range(0, 41) if n not in bip39.LEGAL_COUNTS]
 REQUIRED = (["accept-%d" % n for n in bip39.LEGAL_COUNTS] + ["reject-count-%d" % n for n in ILLEGAL]
             + ["reject-checksum-%d" % n for n in bip39.LEGAL_COUNTS] + ["reject-word", "layout-messy-accept", "layout-unicode-whitespace-accept",
                                                                            "lastword-valid-%d" % 12, "lastword-valid-24",
-                                                                           "opt-wordscan-search-random", "opt-wordscan-search-near", "opt-wordscan-phrase-near", "opt-wordscan-list-word-hit"])
+                                                                           "opt-wordscan-search-random", "opt-wordscan-search-near", "opt-wordscan-phrase-near", "opt-wordscan-list-word-hit",
+             "cli-accept", "cli-reject-word", "cli-reject-count", "cli-reject-checksum"])
 
 
 def split_ascii(phrase):
@@ -128,7 +129,36 @@ def judge_scan(case, obs):
     return v
 
 
-JUDGES = {"parse": judge_parse, "scan": judge_scan}
+_ADDR = {}
+
+
+def judge_cli(case, obs):
+    """The same phrases through the command line (`address` with the phrase by flag or environment variable)."""
+    from ..ref import eth
+    from ..run.core import abnormal
+    o = obs[0]
+    v = V()
+    if abnormal(o) or "exit" not in o:
+        return v
+    phrase = case["x"]["phrase"]
+    words = split_ascii(phrase)
+    cls = bip39.classify(words)
+    if cls == "ok":
+        if o["exit"] != 0:
+            return v.bad("C01/cli/valid-%d/rejected" % len(words), "`address` refused a valid phrase: %s" % o["stderr"][-150:])
+        key = " ".join(words)
+        if key not in _ADDR:
+            _ADDR[key] = eth.address_of_key(eth.bip32_derive(bip39.seed(words, ""), eth.default_path(0)))
+        if o["stdout"].strip() != _ADDR[key]:
+            return v.bad("C01/cli/valid-%d/other-account" % len(words), "`address` printed %s for a valid phrase, reference %s" % (o["stdout"].strip()[:60], _ADDR[key]))
+        return v.bucket("cli-accept")
+    if o["exit"] == 0 or o["stdout"].strip():
+        return v.bad("C01/cli/%s-%d/accepted" % (cls, len(words)), "`address` printed %r (exit %d) for an invalid phrase (%s) given by %s" % (
+            o["stdout"].strip()[:60], o["exit"], cls, case["x"]["channel"]))
+    return v.bucket("cli-reject-" + cls)
+
+
+JUDGES = {"parse": judge_parse, "scan": judge_scan, "cli": judge_cli}
 
 
 def _case(phrase, cls, tag="", **x):
@@ -156,11 +186,37 @@ def shards(tier, seed):
     for i in range(16):
         out.append({"name": "wordscan-%d" % i, "i": i, "requests": 160 if T else 8, "tokens": 250000})
     out.append({"name": "layouts", "count": 40000 if T else 1000})
+    out += [{"name": "cli-surface-%d" % i, "part": i} for i in range(8)]
     return out
 
 
 def gen(shard, rng, tier):
     name = shard["name"]
+    if name.startswith("cli-surface"):
+        T = tier == "thorough"
+        subs = [{"name": "unknown-words", "count": 300 if T else 24}, {"name": "counts", "reps": 2 if T else 1}, {"name": "layouts", "count": 200 if T else 16},
+                {"name": "entropy-patterns", "count": 200 if T else 12}]
+        k = 0
+        seen = set()
+        for sub in subs:
+            for c in gen(sub, rng, tier):
+                phrase = c["steps"][0]["lib"].get("phrase")
+                if phrase is None or phrase in seen or "\x00" in phrase:
+                    continue
+                seen.add(phrase)
+                try:
+                    if len(phrase.encode("utf-8")) > 100000:
+                        continue  # one argument / environment string is limited to 128 KiB by the kernel
+                except UnicodeEncodeError:
+                    continue
+                k += 1
+                if k % 8 != shard["part"]:
+                    continue
+                by_env = (k // 8) % 2 == 0
+                spec = {"argv": ["address"] if by_env else ["address", "--mnemonic=" + phrase], "env": {"MNEMONIC": phrase} if by_env else {}}
+                yield {"j": "cli", "profile": "dev" if (k // 16) % 2 else "release", "steps": [{"cli": spec}],
+                       "x": {"cls": "cli", "phrase": phrase, "channel": "MNEMONIC" if by_env else "--mnemonic"}}
+        return
     if name.startswith("wordscan-"):
         for k in range(shard["requests"]):
             level = "phrase" if k % 4 == 3 else "search"
@@ -229,6 +285,13 @@ def gen(shard, rng, tier):
         for extra in ("", " ", "\n", "\t \n"):
             yield from both(_case(extra, "count-0", "counts"))
     elif name == "unknown-words":
+        # a whole valid phrase wrapped or terminated the way it arrives from a shell, an .env file or a document: the first / last
+        # token is then not a list word
+        for deco in ('"%s"', "'%s'", '"%s', "%s'", "`%s`", "%s.", "%s,", "(%s)", "[%s]", "<%s>", "%s;", "mnemonic: %s", "%s\\n", "\u201c%s\u201d", '""%s""', "=%s"):
+            for n in bip39.LEGAL_COUNTS:
+                words = rand_words(rng, n - 1)
+                words = words + [complete_last(rng, words)]
+                yield from both(_case(deco % " ".join(words), "word-%d" % n, "decorated"))
         for _ in range(shard["count"]):
             n = rng.choice(bip39.LEGAL_COUNTS)
             words = rand_words(rng, n - 1)
